@@ -136,7 +136,15 @@ def money_case(chk, h, convs, label):
                                      U("GBP"))},
             # an amount whose converted value is zero is an answer, too
             {"k": k + ".zero", "e": M(Q(["i", 0], "EUR"), "convert",
-                                      U("USD"))}]
+                                      U("USD"))},
+            # further routes to the same converter: the converting
+            # constructor, >=, and subtraction
+            {"k": k + ".parse", "e": ["c", MONEY, [["s", "100 EUR"],
+                                                   U("USD")]]},
+            {"k": k + ".ge", "e": OP(">=", Q(["i", 100], "EUR"),
+                                     Q(["i", 100], "USD"))},
+            {"k": k + ".sub", "e": OP("-", Q(["i", 500], "USD"),
+                                      Q(["i", 100], "EUR"))}]
 
     def build(actions, stack):
         steps = []
@@ -229,7 +237,8 @@ def money_case(chk, h, convs, label):
                     if eq.get("v") is not False:
                         bad.append("%s: no converter active but 100 EUR == "
                                    "100 USD is %s" % (k, brief(eq)))
-                    for kk in (".lt", ".add", ".zero"):
+                    for kk in (".lt", ".add", ".zero", ".parse", ".ge",
+                               ".sub"):
                         if not is_exc(obs.get(k + kk), "UnitConversionError"):
                             bad.append("%s: no converter active but %s gives "
                                        "%s" % (k, kk[1:],
@@ -275,6 +284,21 @@ def money_case(chk, h, convs, label):
                             bad.append("%s: the most recent converter %s has "
                                        "no EUR->GBP rate, but the conversion "
                                        "gives %s" % (k, top, brief(gbp)))
+                    pr = obs.get(k + ".parse")
+                    if pr is None or pr.get("k") != "Q" or \
+                            val(pr) != want_amt or pr["u"] != "USD":
+                        bad.append("%s: Money('100 EUR', USD) gives %s, the "
+                                   "most recent converter %s says %s USD" %
+                                   (k, brief(pr), top, want_amt))
+                    if obs.get(k + ".ge", {}).get("v") is not True:
+                        bad.append("%s: 100 EUR >= 100 USD is %s" %
+                                   (k, brief(obs.get(k + ".ge"))))
+                    sb = obs.get(k + ".sub")
+                    if sb is None or sb.get("k") != "Q" or \
+                            val(sb) != 500 - want_amt or sb["u"] != "USD":
+                        bad.append("%s: 500 USD - 100 EUR gives %s, the most "
+                                   "recent converter %s says %s USD" %
+                                   (k, brief(sb), top, 500 - want_amt))
                     zero = obs.get(k + ".zero")
                     chk.count("zero amounts converted by the active "
                               "converter")
